@@ -13,7 +13,7 @@ spec/ClientCache.tla.  Binding:
                  and from a proxy node in front of it are judged by the same TLC run (law
                  DriverReceived = Sent, ClientCache = DriverReturned).
 """
-import base64
+import hashlib
 import json
 import random
 import socket
@@ -802,7 +802,7 @@ def _neutralise(client):
 
 def _e2e_batch(arg):
     """one rig: node 1 (driver module), node 2 (proxy module in front of it), three clients"""
-    seed, n_per_kind = arg
+    seed, n_per_kind, budget = arg
     boot()
     import frappy.client
     import frappy.io
@@ -841,10 +841,16 @@ def _e2e_batch(arg):
                 raise MachineryError('proxy did not connect to node 1: state %r' % pxclient.state)
             _time.sleep(0.01)
         prev = {k: a_tree(k, drv.parameters[k].value) for k in KINDS}
+        slow = {}       # path -> number of requests that ran into a time-out (the client may be unusable)
+        dead = set()    # (kind, path) whose requests run into time-outs: one record is enough (10 s each)
+        t_end = _time.time() + budget
         for kind in KINDS:
             for i in range(n_per_kind):
+                if _time.time() > t_end:
+                    notes['aborted'] = 'time budget of %d s used up at kind %s' % (budget, kind)
+                    break
                 for path, (c, mod) in clients.items():
-                    if path == 'direct_active' and i % 4:
+                    if path == 'direct_active' and i % 4 or (kind, path) in dead or slow.get(path, 0) >= 1:
                         continue
                     sent_a, sent_c = _gen_value(kind, rnd, partial=True)
                     ret_a, ret_c = _gen_value(kind, rnd, partial=False)
@@ -858,6 +864,9 @@ def _e2e_batch(arg):
                         rec['cache'] = a_tree(kind, item.value) if item.readerror is None else {'j': 'atom', 'v': '?%r' % (item.readerror,)}
                     except Exception as e:
                         rec['cache'] = {'j': 'atom', 'v': '?raised %r' % (e,)}
+                        if isinstance(e, (TimeoutError, ConnectionError)):
+                            dead.add((kind, path))
+                            slow[path] = slow.get(path, 0) + 1
                     got = [r for r in drv.rec if r[0] == 'w' and r[1] == kind]
                     rec['nrecv'] = len(got)
                     if got:
@@ -865,6 +874,8 @@ def _e2e_batch(arg):
                     prev[kind] = ret_a
                     records.append(rec)
                 # read path (a proxy serves reads from its cache: direct only)
+                if (kind, 'direct') in dead or slow.get('direct', 0) >= 1:
+                    continue
                 c, mod = clients['direct']
                 ret_a, ret_c = _gen_value(kind, rnd, partial=False)
                 drv.script[kind] = ret_c
@@ -874,9 +885,14 @@ def _e2e_batch(arg):
                     rec['cache'] = a_tree(kind, item.value) if item.readerror is None else {'j': 'atom', 'v': '?%r' % (item.readerror,)}
                 except Exception as e:
                     rec['cache'] = {'j': 'atom', 'v': '?raised %r' % (e,)}
+                    if isinstance(e, (TimeoutError, ConnectionError)):
+                        dead.add((kind, 'direct'))
+                        slow['direct'] = slow.get('direct', 0) + 1
                 prev[kind] = ret_a
                 records.append(rec)
             # error path
+            if (kind, 'direct') in dead or slow.get('direct', 0) >= 1:
+                continue
             c, mod = clients['direct']
             exc = rnd.choice([HardwareError('sensor %s failed' % kind), CommunicationFailedError('no answer: timeout')])
             drv.script[kind] = exc
@@ -888,6 +904,8 @@ def _e2e_batch(arg):
                 rec['cache'] = {'cls': type(e).__name__, 'text': e.args[0] if e is not None and len(e.args) == 1 else repr(e)}
             except Exception as e:
                 rec['cache'] = {'cls': '?raised', 'text': repr(e)}
+                if isinstance(e, (TimeoutError, ConnectionError)):
+                    slow['direct'] = slow.get('direct', 0) + 1
             records.append(rec)
             drv.script[kind] = _gen_value(kind, rnd, partial=False)[1]
     finally:
@@ -908,21 +926,45 @@ def _e2e_batch(arg):
 # ------------------------------------------------------------------ check
 
 def _printed(out, tag='BEH'):
-    """PrintT(<<tag, ToJson(x)>>) lines -> objects (TLA+ string escapes are a subset of JSON's)"""
+    """PrintT(<<tag, ToJson(x)>>) lines -> the JSON texts (TLA+ string escapes are a subset of JSON's)"""
     pat = '<<"%s", "' % tag
-    return [json.loads(json.loads(line[len(pat) - 1:-2])) for line in out.splitlines()
-            if line.startswith(pat) and line.endswith('">>')]
+    return [line[len(pat) - 1:-2] for line in out.splitlines() if line.startswith(pat) and line.endswith('">>')]
+
+
+def _parse(raw):
+    return json.loads(json.loads(raw))
+
+
+def _acts(beh):
+    return [dict({k: v for k, v in s.items() if k != 'exp'}, **({'now': s['exp']['n']} if s.get('act') == 'tick' else {}))
+            for s in beh]
+
+
+def _replay_raw(raw):
+    """worker: parse + replay one behaviour -> (case key, non-trivial, mismatch + what is needed to report it)"""
+    beh = _parse(raw)
+    bad = _replay(beh)
+    nontriv = any(s.get('act') == 'recv' and (s['exp']['l']['calls'] or s['exp']['l']['released']) for s in beh)
+    key = hashlib.sha1(json.dumps(_acts(beh), sort_keys=True).encode()).hexdigest()
+    if bad:
+        st = beh[1 + bad['step']] if 0 <= bad['step'] < len(beh) - 1 else {'act': bad['action'].get('act')}
+        bad['class'] = _msg_class(st)
+        bad['behaviour'] = _acts(beh)
+    return key, nontriv, bad
 
 
 def _behaviours(chk, quick):
-    cfg = 'Gen_ClientCache_quick.cfg' if quick else 'Gen_ClientCache_thorough.cfg'
-    r = run_tlc('Gen_ClientCache', cfg, workers=1, timeout=1200)
-    if r.violated or not r.ok:
-        raise MachineryError('behaviour emission Gen_ClientCache/%s failed: %s\n%s' % (cfg, r.violated or r.error, r.out[-1500:]))
-    chk.add_tlc(r)
-    behs = _printed(r.out)
+    behs = []
+    # wide alphabet to depth 2, callback-focused alphabet (one parameter, all levels / behaviours) one level deeper
+    for cfg in (('Gen_ClientCache_quick.cfg', 'Gen_ClientCache_cb_quick.cfg') if quick else
+                ('Gen_ClientCache_thorough.cfg', 'Gen_ClientCache_cb_thorough.cfg')):
+        r = run_tlc('Gen_ClientCache', cfg, workers=1, timeout=1200)
+        if r.violated or not r.ok:
+            raise MachineryError('behaviour emission Gen_ClientCache/%s failed: %s\n%s' % (cfg, r.violated or r.error, r.out[-1500:]))
+        chk.add_tlc(r)
+        behs += _printed(r.out)
     # deeper behaviours sampled by TLC's simulator from the same generation spec
-    n, depth, scfg = (30, 10, 'Gen_ClientCache_sim_quick.cfg') if quick else (600, 14, 'Gen_ClientCache_sim_thorough.cfg')
+    n, depth, scfg = (24, 10, 'Gen_ClientCache_sim_quick.cfg') if quick else (600, 14, 'Gen_ClientCache_sim_thorough.cfg')
     rs = run_tlc('Gen_ClientCache', scfg, workers=1, timeout=900, simulate='num=%d' % n,
                  depth=depth + 1, seed=chk.seed + 1, deadlock=False)
     if rs.violated or rs.rc != 0:
@@ -944,35 +986,44 @@ def run(chk):
                 'by Trace_ClientCache; end to end: (datatype kind, valid value) cases through node and proxy node judged '
                 'by TLC. A case is distinct by its action sequence / (kind, value, path); non-trivial = at least one '
                 'handled message reaching a registered callback or a released caller, resp. every end-to-end write')
+    t0 = _time.time()
+    stage = chk.notes.setdefault('stage_s', {})
+
+    def lap(name):
+        nonlocal t0
+        stage[name] = round(_time.time() - t0, 1)
+        t0 = _time.time()
     for m in ('ClientCache', 'Gen_ClientCache', 'Trace_ClientCache'):
         sany(m)
+    lap('sany')
     # 1 design check
     chk.add_tlc(model_check('ClientCache', 'MC_ClientCache_quick.cfg' if quick else 'MC_ClientCache_thorough.cfg', timeout=1100))
 
+    lap('model_check')
     # 2 spec -> code
     behs, sim = _behaviours(chk, quick)
+    lap('generate')
     allb = behs + sim
-    res = pool_map(_replay, allb)
-    for beh, bad in zip(allb, res):
+    res = pool_map(_replay_raw, allb)
+    lap('replay')
+    for key, nontriv, bad in res:
         chk.impl_traces += 1
-        acts = [dict({k: v for k, v in s.items() if k != 'exp'}, **({'now': s['exp']['n']} if s.get('act') == 'tick' else {}))
-                for s in beh]
-        nontriv = any(s.get('act') == 'recv' and (s['exp']['l']['calls'] or s['exp']['l']['released']) for s in beh)
-        chk.case(json.dumps(acts, sort_keys=True), nontriv)
+        chk.case(key, nontriv)
         if bad:
-            st = beh[1 + bad['step']] if 0 <= bad['step'] < len(beh) - 1 else {'act': bad['action'].get('act')}
-            sig = {'module': 'ClientCache', 'step': _msg_class(st),
+            sig = {'module': 'ClientCache', 'step': bad.pop('class'),
                    'diff': sorted(k for k in set(bad['expected']) | set(bad['observed'])
                                   if bad['expected'].get(k) != bad['observed'].get(k))}
-            chk.violation(sig, {'behaviour': acts, **bad})
-    if behs:
-        chk.sample({'behaviour': [{k: v for k, v in s.items() if k != 'exp'} for s in behs[len(behs) // 2]]})
+            chk.violation(sig, bad)
+    chk.sample({'behaviour': _acts(_parse(behs[len(behs) // 2]))})
 
     # 3 code -> spec, message level + end to end, one TLC run
     n = 300 if quick else 4000
     traces = pool_map(_random_trace, [(chk.seed * 100003 + i, 40 if quick else 60) for i in range(n)])
-    nbatch, per_kind = (4, 12) if quick else (16, 150)
-    e2e = pool_map(_e2e_batch, [(chk.seed * 7919 + i, per_kind) for i in range(nbatch)])
+    lap('random_traces')
+    nbatch, per_kind = (4, 8) if quick else (16, 150)
+    e2e = pool_map(_e2e_batch, [(chk.seed * 7919 + i, per_kind, 40 if quick else 500) for i in range(nbatch)])
+    aborted = [n['aborted'] for _, n in e2e if n.get('aborted')]
+    lap('end_to_end')
     records = [r for recs, _ in e2e for r in recs]
     e2e_traces = [[{k: v for k, v in r.items() if k != 'concrete'}] for r in records]   # one record = one trace
     if e2e and e2e[0][1].get('proxy_factory_errors'):
@@ -982,6 +1033,7 @@ def run(chk):
     verdicts, st, tr = validate_traces('Trace_ClientCache', traces + e2e_traces, 'Trace_ClientCache.cfg', timeout=1100, chunk=2500)
     chk.states += st
     chk.transitions += tr
+    lap('trace_validation')
     kinds_seen = set()
     for i, v in verdicts.items():
         chk.impl_traces += 1
@@ -1002,8 +1054,8 @@ def run(chk):
                 chk.violation({'module': 'E2E', 'kind': r['kind'], 'op': r['op'], 'clause': v[1], 'shape': _diff_shape(r)},
                               {'record': r, 'path': r['path']})
     missing = [(k, p, 'write') for k in KINDS for p in ('direct', 'direct_active', 'proxy') if (k, p, 'write') not in kinds_seen]
-    if missing:
-        raise MachineryError('end-to-end cases missing (vacuous): %r' % (missing[:5],))
+    if (missing or aborted) and not chk.violations:
+        raise MachineryError('end-to-end cases missing (vacuous): %r %r' % (missing[:5], aborted[:1]))
     chk.sample({'trace_prefix': traces[0][:3]})
     chk.sample({'e2e_record': e2e[0][0][0]})
     chk.exhaustive = False
